@@ -38,6 +38,13 @@ Clauses(e) ==
             <<"PredictedTypes", (~dup /\ ~inc /\ e.outcome = "ok") =>
                  \A j \in 1..Len(e.predicted) :
                     e.predicted[j].type = Resolved(TypesAt(e.paths, Prefix(e.paths[e.predicted[j].r], e.predicted[j].k)))>> >>
+    [] e.op = "reasons" ->
+         LET t == NormT(e.rcond)  d == e.doc
+             unc == \E j \in 1..Len(d.xs) : Filter(t, d)[j] = "U"
+         IN IF ~StoreOk(e.rcond) \/ MixErr(e.rcond) \/ unc \/ e.outcome # "ok" THEN << <<"Skip", TRUE>> >> ELSE
+         << <<"TruthTableResultColumn", \A j \in 1..Len(d.xs) : e.table[j] = ResultRows(t, Keys(d)[j], Vals(d)[j])>>,
+            <<"ReasonsAreFirstFlagPerRow", \A j \in 1..Len(d.xs) :
+                 e.reasons[j] = (IF Filter(t, d)[j] = "T" THEN <<>> ELSE Reasons(t, Keys(d)[j], Vals(d)[j]))>> >>
     [] e.op = "kinds" ->
          LET t == NormT(e.rcond) IN
          << <<"KindPredicates", (StoreOk(e.rcond) /\ ~MixErr(e.rcond) /\ t.t # "null") =>
